@@ -784,6 +784,9 @@ func (n *Node) applyFaults(e *Entry, out []byte, delay time.Duration) ([]byte, b
 			if n.killMidReply >= 0 && n.killMidReply < len(out) {
 				return out[:n.killMidReply], true, delay
 			}
+			if n.killMidReply >= len(out) {
+				return out, true, delay // the whole reply, then close
+			}
 			return nil, true, delay
 		}
 	}
@@ -907,4 +910,9 @@ func (w *World) AllAddrs() []string {
 		r = append(r, n.Addr)
 	}
 	return r
+}
+
+// KillAfterLocked is KillAfter for callers that already hold the world lock (Hostile/Delay callbacks).
+func (n *Node) KillAfterLocked(k, midReply int, rst bool) {
+	n.killAfter, n.killMidReply, n.killRST = k, midReply, rst
 }
